@@ -319,8 +319,16 @@ def check_c04(text, pieces, stmts, resplit):
     prob = locate_pieces(text, pieces)
     if prob:
         return ('not-a-partition', 'split', prob)
-    for p in pieces:
+    for p, st in zip(pieces, stmts):
         r = resplit(p)
         if r != [p]:
-            return ('piece-resplits', 'split', f'{p!r} -> {r!r}')
+            # root cause: does strip() cut into a non-whitespace token of the statement?
+            leaves = [lf for lf in walk_leaves(st, []) if not is_ws_type(lf.ttype)]
+            sig = 'other'
+            if leaves and leaves[-1].value != leaves[-1].value.rstrip():
+                stripped = leaves[-1].value.rstrip()
+                sig = f'strip-cuts-last-token:{tname(leaves[-1].ttype)}:{stripped[:4]}'
+            elif leaves and leaves[0].value != leaves[0].value.lstrip():
+                sig = f'strip-cuts-first-token:{tname(leaves[0].ttype)}'
+            return ('piece-resplits', sig, f'{p!r} -> {r!r}')
     return None
